@@ -1,43 +1,44 @@
 (* DocSpec.v - the documented grammar, variable table, defaults and step lists
-   of the five modes, TRANSCRIBED BY HAND from the manual pages
+   of the five modes, TRANSCRIBED BY HAND, line by line, from the manual pages of /repo
        robsd.conf.5  robsd-cross.conf.5  robsd-ports.conf.5  robsd-regress.conf.5
-       canvas.conf.5  robsd-config.8  robsd.8  robsd-cross.8  robsd-ports.8  robsd-regress.8
-   and independent of the C tables (which the translator regenerates into
-   coq/gen/Gen_Conf.v).  Conf/ConfTie.v proves the two equal up to the order of
-   the rows, so that flipping a default, dropping "required", adding or removing
-   a keyword, or reordering a step list stops a proof.
+       canvas.conf.5  robsd-config.8  (step lists: robsd.8 robsd-cross.8 robsd-ports.8 robsd-regress.8)
+   Every row carries the page and line it comes from.  The file contains what the
+   pages SAY and nothing else: a variable no page mentions has no row here, a
+   variable a page documents has a row here whether or not the C tables have one.
+   Where the C tables differ, the difference is NOT smoothed over here; it is listed,
+   row by row, in Conf/DocExceptions.v ([doc_exceptions]), proved there to be
+   exactly the difference between these rows and the regenerated tables
+   (coq/gen/Gen_Conf.v), each class with a witness text on which the documented
+   reading and the code disagree.
 
-   Conventions of the transcription
-   * One row per variable.  "The following variables are recognized" (*.conf.5)
-     gives the settable keywords with their value syntax:
-        Dq Ar path|conf|host|hostname|command   -> K_string, or K_directory / K_user, see below
-        yes | no                                -> K_yesno
-        Ar number                               -> K_number
-        { Dq Ar x ... }                         -> K_list
-        Dq Ar glob                              -> K_glob
-        Ar timeout unit                         -> K_timeout
-        regress Dq path [options], step Dq name [options], regress-env { ... }
-     "Additional variables" of robsd-config.8 give the read-only ones (K_ro_*):
-     they can be referenced but not assigned.
-   * required = the variable occurs in the minimal configuration shown in the
-     EXAMPLES section of the page (the pages do not use the word "required"; the
-     examples are exactly the smallest accepted configurations).
-   * repeatable = "May be given multiple times" / "may be given multiple times",
-     and regress-env ("added to all regression tests", accumulating).
-   * K_user: the argument is called "user".  K_directory: the argument is a
-     path that robsd reads or writes on this machine before any step runs
-     (robsddir, destdir, the source and object trees, canvas-dir).  The pages do
-     not say which paths are checked for existence; crossdir, chroot and
-     ports-dir are described as directories as well but are created by, or live
-     inside the chroot of, later steps (crossdir's own example contains
-     ${target}, which only exists at run time), so they are plain strings here.
-   * default = the sentence "Defaults to ..."/"defaults to ...".  Where a page
-     states no default the row has [dd_none] (empty string, 0, empty list by
-     type).  "Defaults to keeping everything" (keep) and "Defaults to unlimited"
-     (regress-timeout) are the value 0, "yes"/"no" are 1/0.
-   * Rows marked (undocumented) exist because other documented defaults are
-     phrased in terms of them or the scripts rely on them; they are listed so
-     that the comparison with the C tables is exact, and named in the report. *)
+   Rules of the transcription (uniform; none of them looks at the C tables)
+   R1 type = the synopsis of the .It line:
+        Dq Ar path|conf|host|hostname|command|name -> K_string (or K_directory by R2, K_user: Dq Ar user)
+        yes | no -> K_yesno;  Ar number -> K_number;  { Dq Ar x ... } -> K_list;  Dq Ar glob -> K_glob
+        Ar timeout unit -> K_timeout;  regress Dq path [options], step Dq name [options], regress-env { ... }
+      "Additional variables" of robsd-config.8 give the read-only ones (kinds K_ro_string, K_ro_integer, K_ro_list): they can be referenced, not assigned.
+      K_user: the named user must exist, K_directory: the directory must exist (property C08: "referenced
+      directories and users existing").
+   R2 directory = the argument is a path AND the description calls it a directory on the machine robsd runs on:
+      robsddir, destdir, bsd-objdir, bsd-srcdir, x11-objdir, x11-srcdir, chroot ("Directory used as the proot chroot"),
+      ports-dir ("Source directory for the ports tree"), canvas-dir.  Not: distrib-path ("Directory on distrib-host":
+      another machine), distrib-signify ("Path to signify private key": a file).  crossdir ("Unique directory per
+      target") is a string BY THE PAGE ITSELF: its EXAMPLES section writes crossdir "/home/robsd-cross/${target}" and
+      robsd-config.8:66 defines target as the argument passed to robsd-cross, which does not exist when the file is
+      parsed - an existence-checked directory could not accept the page's own example.
+   R3 required = the variable occurs in the configuration of the EXAMPLES section (the pages do not use the word; the
+      examples are minimal).
+   R4 repeatable = the page says "May be given multiple times" / "may be given multiple times".  Nothing else is.
+   R5 default = the sentence "Defaults to ..." / "defaults to ...": yes/no are 1/0 (dd_int), a number or a string is
+      itself.  Where the page states no default, or states one that is a behaviour and not a value ("Defaults to keeping
+      everything", "Defaults to unlimited"), the row has [dd_none] (the empty value of its type: 0, "", empty list).
+      "rooted in X" (robsd-config.8) is transcribed as ${X}/<last word of the variable name>; the basename is NOT documented
+      (comment, tmp, rel, relx, attic are the names the scripts use) - marked (basename undocumented).
+   R6 a star in a documented name (regress-*-env) is a pattern for any test path.
+   Not stated by any page and therefore a READING, marked (reading): WHEN a reference inside  env { ... }  of a test is
+   expanded.  The rows of rdomain and regress-*-env carry early = true, i.e. "rdomain references in a test's environment are
+   expanded when the option is read, so that a test has ONE rdomain"; the alternative (expanded again at every reference to
+   ${regress-*-env}) contradicts no page either.  The nesting limit of references is documented nowhere (C09). *)
 From Robsd Require Export Conf.ConfTypes.
 From Coq Require Import String.
 Local Open Scope string_scope.
@@ -87,100 +88,98 @@ Definition doce (kw : string) (k : dkind) (d : ddefault) : grammar :=
   mk_grammar (bs kw) (kind_type k) (kind_fn k) false false false true (dd_default d).
 
 (* ---- shared by all modes: the common keywords of every *.conf.5 page and the
-   "additional variables ... for all modes" of robsd-config.8 *)
+   "additional variables ... for all modes" of robsd-config.8:21-50 *)
 Definition doc_common_settable : list grammar := [
-  doc "hook"          K_list   opt once dd_none;
-  doc "keep"          K_number opt once dd_none;               (* "Defaults to keeping everything" *)
-  doc "keep-attic"    K_yesno  opt once (dd_int 1);            (* "Defaults to yes" *)
-  doc "skip"          K_list   opt once dd_none;
-  doc "stat-interval" K_number opt once (dd_int 10)            (* "Defaults to 10" *)
+  doc "hook"          K_list   opt once dd_none;               (* robsd.conf.5:28 cross:24 ports:26 regress:22 canvas:39 *)
+  doc "keep"          K_number opt once dd_none;               (* robsd.conf.5:37-42 "Defaults to keeping everything": a behaviour *)
+  doc "keep-attic"    K_yesno  opt once (dd_int 1);            (* robsd.conf.5:43-52 "Defaults to yes" *)
+  doc "skip"          K_list   opt once dd_none;               (* robsd.conf.5:59 cross:49 ports:51 canvas:64 *)
+  doc "stat-interval" K_number opt once (dd_int 10)            (* robsd.conf.5:32-36 "Defaults to 10" *)
 ].
 
 Definition doc_common_readonly : list grammar := [
-  doc "arch"         K_ro_string  opt once dd_arch;                       (* CPU architecture *)
-  doc "build-user"   K_ro_string  opt once (dd_str "build");              (* (undocumented) "Defaults to build" of regress-user refers to it *)
-  doc "builddir"     K_ro_string  opt once (dd_env DF_build_dir);         (* the current invocation directory *)
-  doc "comment-path" K_ro_string  opt once (dd_str "${builddir}/comment");(* rooted in builddir *)
-  doc "exec-dir"     K_ro_string  opt once (dd_env DF_exec_dir);          (* (undocumented) *)
-  doc "inet"         K_ro_string  opt once (dd_env DF_inet4);
-  doc "inet6"        K_ro_string  opt once (dd_env DF_inet6);
-  doc "keep-dir"     K_ro_string  opt once (dd_str "${robsddir}/attic");  (* "a directory named attic rooted in robsddir" *)
-  doc "machine"      K_ro_string  opt once dd_machine;
-  doc "ncpu"         K_ro_integer opt once (dd_env DF_ncpu);
-  doc "report-path"  K_ro_string  opt once (dd_str "${builddir}/report");  (* (undocumented) *)
-  doc "tags-path"    K_ro_string  opt once (dd_str "${builddir}/tags");    (* (undocumented) *)
-  doc "tmp-dir"      K_ro_string  opt once (dd_str "${builddir}/tmp");     (* rooted in builddir *)
-  doc "trace"        K_ro_string  opt once (dd_env DF_trace)               (* (undocumented) *)
+  doc "arch"         K_ro_string  opt once dd_arch;                       (* robsd-config.8:25 CPU architecture *)
+  doc "builddir"     K_ro_string  opt once (dd_env DF_build_dir);         (* robsd-config.8:27 the current invocation directory rooted in robsddir *)
+  doc "comment-path" K_ro_string  opt once (dd_str "${builddir}/comment");(* robsd-config.8:30 "Path to comment rooted in builddir" *)
+  doc "inet"         K_ro_string  opt once (dd_env DF_inet4);             (* robsd-config.8:33 *)
+  doc "inet6"        K_ro_string  opt once (dd_env DF_inet6);             (* robsd-config.8:36 *)
+  doc "keep-dir"     K_ro_string  opt once (dd_str "${robsddir}/attic");  (* robsd-config.8:43 + robsd.conf.5:46-49 "a directory named attic rooted in robsddir" *)
+  doc "machine"      K_ro_string  opt once dd_machine;                    (* robsd-config.8:39 *)
+  doc "ncpu"         K_ro_integer opt once (dd_env DF_ncpu);              (* robsd-config.8:41 *)
+  doc "tmp-dir"      K_ro_string  opt once (dd_str "${builddir}/tmp")     (* robsd-config.8:47 "Temporary directory rooted in builddir" (basename undocumented) *)
 ].
 
-Definition doc_robsddir : grammar := doc "robsddir" K_directory REQ once dd_none.
+Definition doc_robsddir : grammar := doc "robsddir" K_directory REQ once dd_none.   (* robsd.conf.5:20 cross:20 ports:20 regress:20; EXAMPLES of each *)
 
 (* ---- robsd.conf.5 *)
 Definition doc_robsd_own : list grammar := [
-  doc "bsd-diff"        K_glob      opt once dd_none;
-  doc "bsd-objdir"      K_directory opt once (dd_str "/usr/obj");
-  doc "bsd-reldir"      K_ro_string opt once (dd_str "${builddir}/rel");   (* robsd-config.8, rooted in builddir *)
-  doc "bsd-srcdir"      K_directory opt once (dd_str "/usr/src");
-  doc "cvs-root"        K_string    opt once dd_none;
-  doc "cvs-user"        K_user      opt once dd_none;
-  doc "destdir"         K_directory REQ once dd_none;
-  doc "distrib-host"    K_string    opt once dd_none;
-  doc "distrib-path"    K_string    opt once dd_none;
-  doc "distrib-signify" K_string    opt once dd_none;
-  doc "distrib-user"    K_user      opt once dd_none;
-  doc "kernel"          K_string    opt once (dd_str "GENERIC.MP");
-  doc "reboot"          K_yesno     opt once dd_none;                      (* "Defaults to no" *)
-  doc "x11-diff"        K_glob      opt once dd_none;
-  doc "x11-objdir"      K_directory opt once (dd_str "/usr/xobj");
-  doc "x11-reldir"      K_ro_string opt once (dd_str "${builddir}/relx");  (* robsd-config.8 *)
-  doc "x11-srcdir"      K_directory opt once (dd_str "/usr/xenocara")
+  doc "bsd-diff"        K_glob      opt once dd_none;                      (* :63-71 "silently ignored if glob does not yield any matches" *)
+  doc "bsd-objdir"      K_directory opt once (dd_str "/usr/obj");          (* :72-74 *)
+  doc "bsd-reldir"      K_ro_string opt once (dd_str "${builddir}/rel");   (* robsd-config.8:55 "rooted in builddir" (basename undocumented) *)
+  doc "bsd-srcdir"      K_directory opt once (dd_str "/usr/src");          (* :75-77 *)
+  doc "cvs-root"        K_string    opt once dd_none;                      (* :78 *)
+  doc "cvs-user"        K_user      opt once dd_none;                      (* :82 *)
+  doc "destdir"         K_directory REQ once dd_none;                      (* :22, EXAMPLES :128 *)
+  doc "distrib-host"    K_string    opt once dd_none;                      (* :88 *)
+  doc "distrib-path"    K_string    opt once dd_none;                      (* :90 "Directory on distrib-host": another machine *)
+  doc "distrib-signify" K_string    opt once dd_none;                      (* :95 a file *)
+  doc "distrib-user"    K_user      opt once dd_none;                      (* :99 *)
+  doc "kernel"          K_string    opt once (dd_str "GENERIC.MP");        (* :53-54 *)
+  doc "reboot"          K_yesno     opt once (dd_int 0);                   (* :55-58 "Defaults to no" *)
+  doc "x11-diff"        K_glob      opt once dd_none;                      (* :103-111 *)
+  doc "x11-objdir"      K_directory opt once (dd_str "/usr/xobj");         (* :112-114 *)
+  doc "x11-reldir"      K_ro_string opt once (dd_str "${builddir}/relx");  (* robsd-config.8:58 (basename undocumented) *)
+  doc "x11-srcdir"      K_directory opt once (dd_str "/usr/xenocara")      (* :115-117 *)
 ].
 
-(* ---- robsd-cross.conf.5 ("target" of robsd-config.8 is defined with -v by robsd-cross, not a table row) *)
+(* ---- robsd-cross.conf.5 and "Additional variables in robsd-cross mode" of robsd-config.8:63-69 *)
 Definition doc_cross_own : list grammar := [
-  doc "bsd-srcdir" K_directory opt once (dd_str "/usr/src");
-  doc "crossdir"   K_string    REQ once dd_none
+  doc "bsd-srcdir" K_directory opt once (dd_str "/usr/src");               (* :53-55 *)
+  doc "crossdir"   K_string    REQ once dd_none;                           (* :22, EXAMPLES :66 with ${target}: rule R2 *)
+  doc "target"     K_ro_string opt once dd_none                            (* robsd-config.8:66 "The target argument passed to robsd-cross" *)
 ].
 
 (* ---- robsd-ports.conf.5 *)
 Definition doc_ports_own : list grammar := [
-  doc "chroot"          K_string REQ once dd_none;
-  doc "cvs-root"        K_string opt once dd_none;
-  doc "cvs-user"        K_user   opt once dd_none;
-  doc "distrib-host"    K_string opt once dd_none;
-  doc "distrib-path"    K_string opt once dd_none;
-  doc "distrib-signify" K_string opt once dd_none;
-  doc "distrib-user"    K_user   opt once dd_none;
-  doc "ports"           K_list   REQ once dd_none;
-  doc "ports-diff"      K_glob   opt once dd_none;
-  doc "ports-dir"       K_string opt once (dd_str "/usr/ports");
-  doc "ports-user"      K_user   REQ once dd_none
+  doc "chroot"          K_directory REQ once dd_none;                      (* :22-25 "Directory used as the proot chroot", EXAMPLES :110 *)
+  doc "cvs-root"        K_string opt once dd_none;                         (* :55 *)
+  doc "cvs-user"        K_user   opt once dd_none;                         (* :59 *)
+  doc "distrib-host"    K_string opt once dd_none;                         (* :65 *)
+  doc "distrib-path"    K_string opt once dd_none;                         (* :67 *)
+  doc "distrib-signify" K_string opt once dd_none;                         (* :72 *)
+  doc "distrib-user"    K_user   opt once dd_none;                         (* :76 *)
+  doc "ports"           K_list   REQ once dd_none;                         (* :80, EXAMPLES :112 *)
+  doc "ports-diff"      K_glob   opt once dd_none;                         (* :85-93 *)
+  doc "ports-dir"       K_directory opt once (dd_str "/usr/ports");        (* :94-96 "Source directory for the ports tree, defaults to /usr/ports" *)
+  doc "ports-user"      K_user   REQ once dd_none                          (* :97, EXAMPLES :111 *)
 ].
 
-(* ---- robsd-regress.conf.5 and the regress part of robsd-config.8 *)
+(* ---- robsd-regress.conf.5 and "Additional variables in robsd-regress mode" of robsd-config.8:71-88 *)
 Definition doc_regress_own : list grammar := [
-  doc  "bsd-diff"           K_glob        opt once dd_none;
-  doc  "bsd-srcdir"         K_directory   opt once (dd_str "/usr/src");
-  doc  "cvs-root"           K_string      opt once dd_none;
-  doc  "cvs-user"           K_user        opt once dd_none;
-  doc  "parallel"           K_yesno       opt once (dd_int 1);           (* "Defaults to yes" *)
-  doce "rdomain"            K_ro_integer  (dd_env DF_rdomain);           (* "incremented on every reference" *)
-  doc  "rdonly"             K_yesno       opt once dd_none;              (* "Defaults to no" *)
-  doc  "regress"            K_regress     REQ REP dd_none;               (* "May be given multiple times" *)
-  docp "regress-*-env"      K_ro_string   true (dd_str "${regress-env}");(* environment of one test: the global one unless given *)
-  docp "regress-*-parallel" K_ro_integer  false (dd_env DF_parallel);    (* (undocumented) no-parallel of one test, else the global switch *)
-  docp "regress-*-targets"  K_ro_list     false (dd_env DF_regress_targets); (* "Defaults to regress" *)
-  doc  "regress-env"        K_regress_env opt REP dd_none;
-  doc  "regress-timeout"    K_timeout     opt once dd_none;              (* "Defaults to unlimited" *)
-  doc  "regress-user"       K_user        opt once (dd_str "${build-user}"); (* "Defaults to build" *)
-  doc  "sudo"               K_string      opt once (dd_str "doas -n")
+  doc  "bsd-diff"           K_glob        opt once dd_none;                (* :68-76 *)
+  doc  "bsd-srcdir"         K_directory   opt once (dd_str "/usr/src");    (* :77-79 *)
+  doc  "cvs-root"           K_string      opt once dd_none;                (* :80 *)
+  doc  "cvs-user"           K_user        opt once dd_none;                (* :84 *)
+  doc  "parallel"           K_yesno       opt once (dd_int 1);             (* :47-54 "Defaults to yes" *)
+  doce "rdomain"            K_ro_integer  (dd_env DF_rdomain);             (* robsd-config.8:74-77 "incremented on every reference"; early (reading) *)
+  doc  "rdonly"             K_yesno       opt once (dd_int 0);             (* :55-64 "Defaults to no" *)
+  doc  "regress"            K_regress     REQ REP dd_none;                 (* :90-98 "May be given multiple times", EXAMPLES :156; robsd-config.8:78 "All configured regression tests" *)
+  docp "regress-*-env"      K_ro_string   true (dd_str "${regress-env}");  (* robsd-config.8:82 "Environment variables for a given regression test"; regress.conf.5:131-132
+                                                                              "added to all regression tests": a test without env has the global ones; early (reading) *)
+  docp "regress-*-quiet"    K_ro_integer  false dd_none;                   (* robsd-config.8:84 "Quiet option for a given regression test" *)
+  docp "regress-*-root"     K_ro_integer  false dd_none;                   (* robsd-config.8:86 "Root option for a given regression test" *)
+  doc  "regress-env"        K_regress_env opt once dd_none;                (* :131-132; no "multiple times" *)
+  doc  "regress-obj"        K_ro_list     opt once dd_none;                (* robsd-config.8:80 "Additional directories requiring an object directory" *)
+  doc  "regress-timeout"    K_timeout     opt once dd_none;                (* :133-142 "Defaults to unlimited": a behaviour *)
+  doc  "regress-user"       K_user        opt once (dd_str "build");       (* :143-145 "Defaults to build" *)
+  doc  "sudo"               K_string      opt once (dd_str "doas -n")      (* :65-67 *)
 ].
 
 (* ---- canvas.conf.5: robsddir is NOT among its variables *)
 Definition doc_canvas_own : list grammar := [
-  doc "canvas-dir"  K_canvas_dir REQ once dd_none;
-  doc "canvas-name" K_string     REQ once dd_none;
-  doc "step"        K_step       REQ REP  dd_none                        (* "may be given multiple times" *)
+  doc "canvas-dir"  K_canvas_dir REQ once dd_none;                          (* :22 "Directory used to store invocations", EXAMPLES :72 *)
+  doc "canvas-name" K_string     REQ once dd_none;                          (* :20, EXAMPLES :71 *)
+  doc "step"        K_step       REQ REP  dd_none                           (* :24-38 "may be given multiple times", EXAMPLES :74-79 *)
 ].
 
 (* insertion sort by keyword: the canonical order both sides are compared in *)
